@@ -114,3 +114,14 @@ Proof.
   split; [apply gen_get_str_query_from_sequence_iterable_ok|apply gen_get_str_query_ok].
 Qed.
 Print Assumptions C02_source_query_functions.
+
+(** ... and the query operations of yarl/_url.py that hand a supplied query to those functions
+    (statements and comment: the C12_source theorems) *)
+From Yarl Require Import Proofs.GenQueryProofs.
+Theorem C02_source_query_operations : forall (B : backend) (u : url) (q : qarg),
+  gen_with_query B u q = with_query B u q /\ gen_extend_query B u q = extend_query B u q
+  /\ gen_update_query B u q = update_query B u q.
+Proof.
+  intros B u q. split; [apply gen_with_query_ok|]. split; [apply gen_extend_query_ok|apply gen_update_query_ok].
+Qed.
+Print Assumptions C02_source_query_operations.
